@@ -175,9 +175,9 @@ func (c *Cond) Canon() string {
 type TokKind int
 
 const (
-	TIdent TokKind = iota // includes keywords (Text decides)
-	TString               // Text is the *decoded* value, Raw the spelling
-	TPunct                // one of : . = ! ( ) , -
+	TIdent  TokKind = iota // includes keywords (Text decides)
+	TString                // Text is the *decoded* value, Raw the spelling
+	TPunct                 // one of : . = ! ( ) , -
 )
 
 type Tok struct {
